@@ -88,6 +88,17 @@ WhyAgrees ==
   /\ \A h \in Handles, p \in 0..Top : (FreeWhy(h, p) = "ok") <=> FreeOK(h, p)
   /\ \A h \in Handles, bad \in 0..2 : (CheckWhy(h, bad) = "ok") <=> CheckOK(h, bad)
 
+\* the linear formulation used for bursts: for answers sorted by address, "each block ends before the next one starts"
+\* is pairwise disjointness (all sequences of up to 3 non-null answers, every size)
+SortedSeqs == {ps \in UNION {[1..k -> Addrs] : k \in 0..3} : \A i \in 1..(Len(ps) - 1) : ps[i] <= ps[i + 1]}
+ASSUME BurstLaw == \A ps \in SortedSeqs, s \in Sizes \ {0} : AdjacentDisjoint(ps, s) <=> PairwiseDisjointSeq(ps, s)
+\* a burst is allowed exactly when its answers, given one after the other with all earlier ones still held, are allowed
+BurstAgrees ==
+  \A s \in Sizes, al \in Aligns : \A ps \in {q \in SortedSeqs : Len(q) = 2} :
+     BurstAnswersOK(s, al, ps) <=>
+        /\ AnswerOK(s, al, ps[1]) /\ AnswerOK(s, al, ps[2]) /\ ps[1] # 0 /\ ps[2] # 0
+        /\ Disjoint(ps[1], s, ps[2], s)
+
 \* a step touches only cells of the block it allocates or frees
 Touched == UNION ({Cells(live'[h]) : h \in LiveSet' \ LiveSet} \cup {Cells(live[h]) : h \in LiveSet \ LiveSet'})
 FrameOK == [][\A a \in Addrs : mem'[a] # mem[a] => a \in Touched]_mvars
